@@ -192,7 +192,13 @@ def rounds_acks(rng, n_rounds, lat, mss, allow_silence=True, allow_zero=True, du
         wnds += [0, 0]
     for _ in range(n_rounds):
         dt = rng.choice([lat + 10, lat + 10, 3000, 20000, 60000] + ([250000, 450000, 1000000] if allow_silence else []))
-        st.append(sleep(dt))
+        if dt >= 250000 and rng.random() < 0.35:
+            # the local transport is busy (send returns Pending) for most of this silence - the moment a retransmission
+            # timer is likely to fire - and writable again afterwards
+            st += [{"op": "net_set", "from": "A", "to": "P", "pending": True}, sleep(dt - 20000),
+                   {"op": "net_set", "from": "A", "to": "P", "pending": False}, sleep(20000)]
+        else:
+            st.append(sleep(dt))
         k = rng.random()
         w = rng.choice(wnds)
         if duplex and rng.random() < 0.4:
@@ -250,7 +256,15 @@ def peer_send(seed, idx, fam="peer_send"):
     # drain: let everything be acknowledged if possible
     for _ in range(12):
         st += [sleep(lat + 10), peer("ack", wnd=1 << 20)]
-    end = rng.choice(["shutdown", "drop", "peerfin", "silent", "reset", "peerfin_early"])
+    end = rng.choice(["shutdown", "drop", "peerfin", "silent", "reset", "peerfin_early", "peerfin_reset"])
+    if end == "peerfin_reset":
+        # the peer closes first; our last segment is lost (twice); the peer - which never got it - answers our FIN with a
+        # RESET that names the FIN's number (seen in the wild): nothing was delivered, flush must not report success
+        st = st[:-24]
+        for nth in (1, 2, 3):
+            st.append(rule(**{"from": "A", "type": "data", "min_len": 21, "nth": nth, "act": "drop", "times": 0}))
+        st += [{"op": "write", "ep": "a", "n": 1}, sleep(lat + 10), peer("fin"), sleep(lat + 10),
+               peer("reset", rel=2), sleep(lat + 10), {"op": "flush", "ep": "a"}, sleep(500000)]
     if end == "peerfin_early":
         # the peer closes first while our last data is still unacknowledged; our answering FIN is lost once; the peer
         # then acknowledges the data (not the FIN it never saw): the FIN has to be repeated
@@ -996,8 +1010,32 @@ def abandon_hole_script(seed, idx, fam="sockpeer"):
                   info={"family": fam, "variant": "abandon_hole", "n": n, "first": first, "gone": gone,
                         "backlog": backlog_from_source()}, mute=["poll"])
 
+def accept_race_script(seed, idx, fam="sockpeer"):
+    """An accept call is registered with the dispatcher, a SYN is matched with it, and the application lets the call
+    go before it runs again (the losing branch of a select!, a timeout): the connection that was created for it never
+    runs; its table entry and its share of the limit must come back."""
+    rng = random.Random(seed * 1000003 + idx * 67 + 43)
+    limit = rng.choice([1, 1, 2])
+    cid = rng.choice([300, 65535, 2 * rng.randrange(50, 30000)])
+    st = [{"op": "accept_held", "sock": "A", "ep": "h"}, sleep(1010),
+          peer("syn", cid=cid, seq=2000, to="A"), sleep(rng.choice([1010, 5000])),
+          {"op": "accept_held_drop", "ep": "h"}, sleep(rng.choice([1010, 2 * SEC]))]
+    # the slot must be usable again
+    for j in range(limit):
+        st += [{"op": "accept", "sock": "A", "ep": f"s{j}"},
+               peer("syn", cid=(cid + 100 + 2 * j) % 65536, seq=4000 + j, to="A"), sleep(1010)]
+    st += [{"op": "wait", "what": "accept", "timeout_us": 2 * SEC}]
+    for j in range(limit):
+        st += [{"op": "abandon", "ep": f"s{j}"}, {"op": "drop", "ep": f"s{j}"}]
+    st.append(sleep(20 * SEC))
+    socks = [sock("A", A_ADDR, rand=[500, 100, 200, 300], link_mtu=576, limit=limit, max_retx=2, inactivity_ms=3000),
+             sock("P", P_ADDR, raw=True)]
+    return script(f"{fam}/{idx}", seed * 97 + idx, socks, st, net={"latency_us": 1000},
+                  info={"family": fam, "variant": "accept_race", "limit": limit, "backlog": backlog_from_source()}, mute=["poll"])
+
 def sockpeer_script(seed, idx, fam="sockpeer"):
-    return [clash_pending_script, dup_syn_live_script, backlog_clash_script, abandon_hole_script][idx % 4](seed, idx, fam)
+    return [clash_pending_script, dup_syn_live_script, backlog_clash_script, abandon_hole_script,
+            accept_race_script][idx % 5](seed, idx, fam)
 
 # ------------------------------------------------------------------ a delayed (not lost) MTU probe behind a lost segment (C01, C06)
 def probe_delay_script(seed, idx, fam="probe_delay"):
